@@ -33,6 +33,9 @@ class Crate:
                 return b
         return None
 
+    def lookup(self, path, promoted=None):
+        return self.body(path, promoted)
+
     def closures_of(self, path):
         """Bodies of closures (transitively) defined inside `path`."""
         pref = path + '::{closure#'
@@ -404,3 +407,311 @@ def trace_value(body, defs, op, depth=0, through_refs=True):
         return steps
     steps.append(('deep',))
     return steps
+
+
+# --------------------------------------------------------------------------
+# inlining of private helpers (so that rules anchored on an entry point survive the extraction of
+# a helper function, and see through helpers that already exist)
+
+import copy as _copy
+import re as _re
+
+
+def _shift(x, loff, boff, subst):
+    """Deep copy of a MIR JSON fragment with locals shifted by loff (or mapped through the dict
+    loff), block numbers by boff, and type-parameter names substituted."""
+    lmap = (lambda l: loff.get(l, l)) if isinstance(loff, dict) else (lambda l: l + loff)
+    def ty(s):
+        if not subst or not isinstance(s, str):
+            return s
+        return subst_ty(s, subst)
+    def go(v, key=None):
+        if isinstance(v, dict):
+            out = {}
+            is_place = 'l' in v and isinstance(v['l'], int) and ('p' in v or v.get('k') in ('live', 'dead'))
+            for k, x in v.items():
+                if k == 'l' and is_place:
+                    out[k] = lmap(x)
+                elif k == 'index' and isinstance(x, int):
+                    out[k] = lmap(x)
+                elif k in ('ty', 'impl_self') and isinstance(x, str):
+                    out[k] = ty(x)
+                else:
+                    out[k] = go(x, k)
+            return out
+        if isinstance(v, list):
+            return [go(x, key) for x in v]
+        return v
+    return go(x)
+
+
+def subst_ty(s, subst):
+    def rep(m):
+        return subst.get(m.group(0), m.group(0))
+    return _re.sub(r'(?<![A-Za-z0-9_:])([A-Z][A-Za-z0-9_]*)(?![A-Za-z0-9_:])', rep, s)
+
+
+def _retarget(t, boff):
+    t = dict(t)
+    k = t['k']
+    if k == 'goto':
+        t['t'] += boff
+    elif k == 'switch':
+        t['targets'] = [[v, bb + boff] for v, bb in t['targets']]
+        t['otherwise'] += boff
+    elif k in ('call', 'drop', 'assert'):
+        if t.get('t') is not None:
+            t['t'] += boff
+        if isinstance(t.get('unwind'), int):
+            t['unwind'] += boff
+    return t
+
+
+def inline_body(crate, body, want, max_rounds=4):
+    """Returns a Body in which calls to callees accepted by `want(path, callee_body)` are replaced by
+    the callee's blocks (arguments assigned to fresh locals, `return` replaced by an assignment of the
+    destination and a jump, unwinding joined with the call's unwind edge).  `.inlined` lists the paths."""
+    d = dict(body.d)
+    blocks = [dict(b, stmts=list(b['stmts'])) for b in body.d['blocks']]
+    locals_ = list(body.d['locals'])
+    inlined = []
+    stack_guard = {body.path}
+    for _ in range(max_rounds):
+        changed = False
+        for bb in range(len(blocks)):
+            t = blocks[bb]['term']
+            if t['k'] != 'call' or 'callee' not in t or t['callee'].get('indirect'):
+                continue
+            p = callee_path(t)
+            cb = crate.body(p) if p else None
+            if cb is None or p in stack_guard or not want(p, cb):
+                continue
+            if cb.def_kind == 'Closure':
+                continue
+            if len(t['args']) != cb.arg_count:
+                continue
+            fn = crate.fns.get(p) or {}
+            gens = fn.get('generics') or []
+            targs = [a.get('ty') for a in callee_args(t, True)] if 'resolved' in t['callee'] else [a.get('ty') for a in callee_args(t)]
+            subst = {}
+            if gens and len(gens) == len(targs):
+                subst = {g: a for g, a in zip(gens, targs) if a and a != g}
+            loff = len(locals_)
+            boff = len(blocks)
+            for l in cb.d['locals']:
+                locals_.append(dict(l, ty=subst_ty(l['ty'], subst) if subst else l['ty']))
+            # arguments: a parameter that the callee never re-assigns and that receives a plain local
+            # (or a reborrow of a reference held in a local) becomes an alias of that local
+            assigned = set()
+            for cblk in cb.d['blocks']:
+                for st in cblk['stmts']:
+                    if st['k'] == 'assign' and not st['place']['p']:
+                        assigned.add(st['place']['l'])
+                ct = cblk['term']
+                if ct['k'] == 'call' and not ct['dest']['p']:
+                    assigned.add(ct['dest']['l'])
+            def defs_of(l):
+                out = []
+                for xb in blocks:
+                    for st in xb['stmts']:
+                        if st['k'] == 'assign' and not st['place']['p'] and st['place']['l'] == l:
+                            out.append(st['rv'])
+                    xt = xb['term']
+                    if xt['k'] == 'call' and not xt['dest']['p'] and xt['dest']['l'] == l:
+                        out.append({'k': 'call'})
+                return out
+            lmap = {i: loff + i for i in range(len(cb.d['locals']))}
+            for i, a in enumerate(t['args']):
+                alias = None
+                if (i + 1) not in assigned:
+                    l = op_local(a)
+                    if l is not None:
+                        alias = l
+                        ds = defs_of(l)
+                        if len(ds) == 1 and ds[0]['k'] == 'ref' and ds[0]['place']['p'] == ['deref'] and l > body.arg_count:
+                            alias = ds[0]['place']['l']
+                if alias is not None:
+                    lmap[i + 1] = alias
+                else:
+                    blocks[bb]['stmts'].append({'k': 'assign', 'place': {'l': loff + i + 1, 'p': [], 'ty': locals_[loff + i + 1]['ty']},
+                                                'rv': {'k': 'use', 'op': a}, 'span': t.get('span'), 'inl_arg': p})
+            cleanup_site = blocks[bb]['cleanup']
+            for cblk in cb.d['blocks']:
+                nb = _shift({'stmts': cblk['stmts'], 'term': cblk['term']}, lmap, 0, subst)
+                term = _retarget(nb['term'], boff)
+                k = term['k']
+                if k == 'return':
+                    nb['stmts'].append({'k': 'assign', 'place': t['dest'], 'rv': {'k': 'use', 'op': {'move': {'l': loff, 'p': [], 'ty': locals_[loff]['ty']}}},
+                                        'span': t.get('span'), 'inl_ret': p})
+                    term = {'k': 'goto', 't': t['t']} if t.get('t') is not None else {'k': 'unreachable'}
+                elif k == 'resume':
+                    if isinstance(t.get('unwind'), int):
+                        term = {'k': 'goto', 't': t['unwind']}
+                elif k in ('call', 'drop', 'assert'):
+                    if term.get('unwind') == 'continue' and isinstance(t.get('unwind'), int):
+                        term['unwind'] = t['unwind']
+                blocks.append({'cleanup': cblk['cleanup'] or cleanup_site, 'stmts': nb['stmts'], 'term': term, 'inl': p})
+            blocks[bb]['term'] = {'k': 'goto', 't': boff, 'inl_call': p, 'span': t.get('span')}
+            inlined.append(p)
+            changed = True
+        if not changed:
+            break
+    d['blocks'] = blocks
+    d['locals'] = locals_
+    nb = Body(d, crate)
+    nb.inlined = inlined
+    nb.original = body
+    return nb
+
+
+class CrateView:
+    """A crate in which private helper functions are inlined into their callers.  Helpers all of
+    whose call sites were inlined disappear as bodies of their own (their code is judged where it runs)."""
+    def __init__(self, crate, want=None, pinned=()):
+        self.base = crate
+        pinned = set(pinned)
+        for a in ('doc', 'file', 'name', 'types', 'adts', 'impls', 'aliases', 'cap_layouts', 'consts', 'fns'):
+            setattr(self, a, getattr(crate, a))
+        def default_want(p, cb):
+            fn = crate.fns.get(p) or {}
+            return cb.def_kind in ('Fn', 'AssocFn') and fn.get('vis') not in ('Public',) and cb.promoted is None and p not in pinned
+        self.want = want or default_want
+        callers = defaultdict(set)
+        for b in crate.bodies:
+            for bb, t in b.calls():
+                p = callee_path(t)
+                if p:
+                    callers[p].add(b.path)
+            # functions used as values (fn pointers, closures passed around) stay
+        used_as_value = set()
+        for b in crate.bodies:
+            for _, _, st in b.statements():
+                s = json.dumps(st) if '"fn"' in json.dumps(st) else ''
+                for m in _re.finditer(r'"fn": "([^"]+)"', s):
+                    used_as_value.add(m.group(1))
+            for bb, t in b.calls():
+                for a in t['args']:
+                    c = a.get('const') if isinstance(a, dict) else None
+                    if c and 'fn' in c:
+                        used_as_value.add(c['fn'])
+        self.bodies = []
+        self.absorbed = {}
+        helper_paths = set()
+        for b in crate.bodies:
+            if b.promoted is None and self.want(b.path, b) and callers.get(b.path) and b.path not in used_as_value and b.path not in callers.get(b.path, ()):
+                # only helpers every caller of which lives in the same module (module-scoped rules keep their meaning)
+                mods = {(crate.body(c).module if crate.body(c) is not None else None) for c in callers[b.path]}
+                if mods == {b.module}:
+                    helper_paths.add(b.path)
+        for b in crate.bodies:
+            if b.path in helper_paths:
+                self.absorbed[b.path] = sorted(callers[b.path])
+                continue
+            nb = inline_body(crate, b, lambda p, cb: p in helper_paths)
+            self.bodies.append(nb if nb.inlined else b)
+        self.by_path = defaultdict(list)
+        for b in self.bodies:
+            self.by_path[b.path].append(b)
+
+    def body(self, path, promoted=None):
+        for b in self.by_path.get(path, []):
+            if b.promoted == promoted:
+                return b
+        return None
+
+    def lookup(self, path, promoted=None):
+        return self.body(path, promoted)
+
+    def closures_of(self, path):
+        b = self.body(path)
+        paths = [path] + list(getattr(b, 'inlined', []) or []) if b is not None else [path]
+        out = []
+        for p in paths:
+            pref = p + '::{closure#'
+            out += [c for c in self.bodies if c.path.startswith(pref) and c.promoted is None]
+        return out
+
+    def ty(self, key):
+        return self.types.get(key)
+
+
+class RecordingCrate:
+    """Wraps a crate and records which function paths the rules ask for (their anchors)."""
+    def __init__(self, crate):
+        self._c = crate
+        self.asked = set()
+    def body(self, path, promoted=None):
+        self.asked.add(path)
+        return self._c.body(path, promoted)
+    def closures_of(self, path):
+        return self._c.closures_of(path)
+    def lookup(self, path, promoted=None):
+        """Generic call-graph lookup: not an anchor."""
+        return self._c.body(path, promoted)
+    def __getattr__(self, a):
+        return getattr(self._c, a)
+
+
+def feasible_reach(body, start, unwind=False, max_states=20000):
+    """Blocks reachable from `start` when constants assigned along the way decide the switches they
+    feed (a helper that returns `true` after doing X, inlined into `if helper() { A } else { B }`,
+    does not reach B after X).  Over-approximates: anything not known to be constant is unknown."""
+    seen_states = set()
+    reach = set()
+    work = [(start, ())]
+    n = 0
+    while work:
+        bb, envt = work.pop()
+        if (bb, envt) in seen_states:
+            continue
+        seen_states.add((bb, envt))
+        n += 1
+        if n > max_states:
+            return body.reachable(start, unwind=unwind)
+        reach.add(bb)
+        env = dict(envt)
+        blk = body.blocks[bb]
+        for st in blk['stmts']:
+            if st['k'] != 'assign':
+                continue
+            pl = st['place']
+            if pl['p']:
+                # a write through a projection of a tracked local invalidates it
+                env.pop(pl['l'], None)
+                continue
+            rv = st['rv']
+            val = None
+            if rv['k'] == 'use':
+                iv = op_int(rv['op'])
+                if iv is not None:
+                    val = iv
+                else:
+                    l = op_local(rv['op'])
+                    if l is not None and l in env:
+                        val = env[l]
+            elif rv['k'] == 'un' and rv.get('op') == 'Not':
+                l = op_local(rv['o'])
+                if l is not None and l in env and env[l] in (0, 1):
+                    val = 1 - env[l]
+            elif rv['k'] in ('ref', 'rawptr') and not rv['place']['p']:
+                env.pop(rv['place']['l'], None)    # address taken: may change behind our back
+            if val is None:
+                env.pop(pl['l'], None)
+            else:
+                env[pl['l']] = val
+        t = blk['term']
+        k = t['k']
+        if k == 'switch':
+            l = op_local(t['d'])
+            iv = op_int(t['d'])
+            known = env.get(l) if l is not None else iv
+            if known is not None:
+                tgt = dict((v, b_) for v, b_ in t['targets']).get(known, t['otherwise'])
+                work.append((tgt, tuple(sorted(env.items()))))
+                continue
+        if k == 'call' and not t['dest']['p']:
+            env.pop(t['dest']['l'], None)
+        nxt = tuple(sorted(env.items()))
+        for s_ in body.successors(bb, unwind):
+            work.append((s_, nxt))
+    return reach
